@@ -34,6 +34,7 @@ SYM = [
     ("ref", ["A"]), ("def", "A", ""), ("ref", ["a", "A"]),  # labels are case-sensitive: [^A] is not [^a]
     ("def", "02", ""), ("def", "10", ""), ("ref", ["10", "02"]),  # numeric labels are ordered by value, not as strings ('02' < '3' < '10')
     ("def", "a", "n"), ("def", "3", ""),  # 'n': a duplicate definition nested in the body of the first one
+    ("def", "2nd", ""), ("ref", ["2nd", "b"]),  # a label that merely STARTS with digits is a named (auto-numbered) label
 ]
 SYM_SMALL = [0, 1, 2, 4, 6, 7, 8, 12, 13, 16]
 BULLETS = "-*+"
@@ -324,5 +325,5 @@ class SphinxFootnoteSystem(System):
 
 def systems(tier):
     if tier == "quick":
-        return [FootnoteSystem(tier, "arrangements", list(range(13)) + [16, 17, 19, 20, 21, 22, 23, 24, 25], 3), FootnoteSystem(tier, "arrangements-deep", SYM_SMALL, 4), SphinxFootnoteSystem(tier)]
+        return [FootnoteSystem(tier, "arrangements", list(range(13)) + [16, 17, 19, 20, 21, 22, 23, 24, 25, 26, 27], 3), FootnoteSystem(tier, "arrangements-deep", SYM_SMALL, 4), SphinxFootnoteSystem(tier)]
     return [FootnoteSystem(tier, "arrangements", list(range(len(SYM))), 4), FootnoteSystem(tier, "arrangements-deep", SYM_SMALL, 6), SphinxFootnoteSystem(tier)]
